@@ -9,7 +9,7 @@ RULE = (
     "aborts from handlers and other threads, small timeouts, fifo/random/PCT schedules with preemptions and clock nudges). Every notification "
     "event of every association is recorded in order. Oracle per association: FSM transitions chain from Sta1; EVT_CONN_OPEN is the first notification (a requestor's EVT_ACSE_SENT/EVT_REQUESTED excepted) and no data/PDU notification follows EVT_CONN_CLOSE; EVT_CONN_OPEN and EVT_CONN_CLOSE at most once each, and exactly one EVT_CONN_CLOSE once a connection was "
     "opened and the run is quiescent; EVT_ESTABLISHED at most once and before any EVT_RELEASED/EVT_ABORTED; the concatenated EVT_DATA_SENT and "
-    "EVT_PDU_SENT payloads equal the bytes this side put on the wire; EVT_PDU_RECV/EVT_DATA_RECV payloads are, in order, PDUs framed in the bytes "
+    "EVT_PDU_SENT payloads equal the bytes this side put on the wire; every PS3.8-conformant PDU reported by EVT_DATA_RECV is also reported by EVT_PDU_RECV; EVT_PDU_RECV/EVT_DATA_RECV payloads are, in order, PDUs framed in the bytes "
     "the peer put on the wire. Non-trivial = history with an abort or a transport loss."
 )
 ASSUMPTIONS = [
@@ -119,6 +119,22 @@ def check_history(ctx, sc):
         got_pdu = [e[3] for e in ev if e[2] == "EVT_PDU_RECV" and isinstance(e[3], bytes)]
         if not _subsequence(got_data, peer_frames):
             ctx.fail("data-recv-vs-wire", name, f"{name}: EVT_DATA_RECV payloads are not PDUs framed in the peer's byte stream, in order")
+        # the other direction: a PDU that was read off the wire (EVT_DATA_RECV) and conforms to PS3.8 must also be reported as a PDU
+        from engines import ps38ref as R8
+
+        def conformant(b):
+            try:
+                _v, used = R8.ref_parse(bytes(b), strict=True)
+                return used == len(b)
+            except R8.Reject:
+                return False
+
+        want_kinds = [bytes(b)[:1] for b in got_data if conformant(b)]
+        # (a reported PDU the recorder could not re-encode counts as a report of any kind)
+        have_kinds = [(e[3][:1] if isinstance(e[3], bytes) else None) for e in ev if e[2] == "EVT_PDU_RECV"]
+        it_have = iter(have_kinds)
+        if not all(any(h is None or h == w for h in it_have) for w in want_kinds):
+            ctx.fail("pdu-recv-missing", name, f"{name}: conformant PDUs read off the wire (EVT_DATA_RECV: {[k.hex() for k in want_kinds]}) were not all reported by EVT_PDU_RECV ({[k.hex() for k in have_kinds]})")
         if not _subsequence(got_pdu, peer_frames):
             ctx.fail("pdu-recv-vs-wire", name, f"{name}: EVT_PDU_RECV PDUs do not re-encode to PDUs of the peer's byte stream, in order: {[g[:1].hex() for g in got_pdu]} vs {[f[:1].hex() for f in peer_frames]}")
 
